@@ -102,36 +102,36 @@ PROPS = {
 # contracts V3-V6 are hypotheses of the theorems); the bounded part then only serves as refuter and as probe of the model.
 TOP = {
     "C01": dict(level="proof", theorems=["Contracts.Pipeline.C01_main", "Contracts.Pipeline.C01_tucan", "Contracts.FinalLabels.assign_final_labels_order_independent", "Contracts.FileIso.C01_files", "Contracts.FileIso.C01_C06_files", "Contracts.FileIso.C01_C06_texts"],
-                note="hypotheses: WF graphs produced by the readers/parser (invariant code determines the identity attributes), SetLawful (any set order), BlissLawful (assumed bliss contract, probe V3)"),
+                note="graph level: any renaming, listing order and set order (two different set orders allowed); file level: two V3000 texts with atom lines permuted, indices renumbered, bond lines permuted and endpoints swapped are both read and get one common string (FileIso.C01_files; V2000 counterpart over parsed line data). Hypotheses that are assumptions: BlissLawful (bliss contract, probe V3), SetLawful; star-free tables at file level"),
     "C02": dict(level="proof", theorems=["Contracts.RoundTrip.C02_pipeline'", "Contracts.RoundTrip.C02_main'", "Contracts.RoundTrip.render_inj"],
                 note="equal strings imply a colour-preserving isomorphism of the input molecules; unconditional on ANTLR (proved through injectivity of the rendering); under BlissLawful/SetLawful only for the pipeline runs to succeed"),
     "C03": dict(level="proof", theorems=["Contracts.Final.C03_fixpoint", "Contracts.Final.C03_fixpoint_ex", "Contracts.RoundTrip.C03_pipeline", "Contracts.RoundTrip.C03_main", "Contracts.Parser.graph_from_tree_ok"],
                 note="both clauses proved under assumption V4 (ANTLR returns the tree of the grammar on the emitted string; bounded differential probe), BlissLawful, SetLawful; molecules are reader/parser output (MolOK, InvariantCodeOK)"),
     "C04": dict(level="proof", theorems=["Contracts.Canonicalize.C04_main"], note="under BlissLawful; requires that equal invariant codes imply equal identity attributes (true for reader/parser output)"),
     "C05": dict(level="proof", theorems=["Contracts.Pipeline.C05_pipeline", "Contracts.Layout.Grammar.tucanSpec_in_grammar", "Contracts.Layout.tuples_layout", "Contracts.Layout.blocks_layout", "Contracts.Layout.formula_layout", "Contracts.V2000File.read_v2000_render", "Contracts.FileIso.idFacts_of_atomLine"],
-                note="grammar = tucan.ebnf transcribed into Lean at character level; preconditions (symbols from the element table, positive mass/rad, no self-loop) are what the readers/parser guarantee after fixes D3, D7, D8"),
+                note="grammar = tucan.ebnf transcribed into Lean at character level; preconditions (symbols from the element table, positive mass/rad, no self-loop) are what the parser, the V3000 reader and (V2000File.read_v2000_render) the V2000 reader guarantee after fixes D3, D7, D8"),
     "C06": dict(level="proof", theorems=["Contracts.Final.C06_reader_text", "Contracts.Final.C06_reader", "Contracts.Final.C08_agree", "Contracts.Pipeline.C06_graph_half", "Contracts.Reader.splitlines_crlf", "Contracts.Reader.graph_from_molfile_text_dress_irrelevant", "Contracts.FileIso.C06_files", "Contracts.FileIso.C06_resonance", "Contracts.FileIso.C01_C06_files", "Contracts.FileIso.C01_C06_texts", "Contracts.FileIso.C01_C06_v2000", "Contracts.FileIso.C01_C06_v3000_v2000"],
-                note="V3000 files with arbitrary headers, blank runs, cut points, separators, index values, coordinates, charges, bond types, foreign keywords; star-atom tables are outside the file-level theorem (covered by the V3000 contracts and the bounded part)"),
+                note="two renderings that agree on the normalised identity data (element with D/T = H mass 2/3, mass, radical; 0 = unset) up to a bijection of the atom lines get one common string, both reads succeed: coordinates, bond orders and annotations, charges, headers, index values, foreign keywords, line endings (LF/CRLF mixtures), V3000 vs V2000 are free (FileIso.C01_C06_files, C06_files, C06_resonance, C01_C06_v2000, C01_C06_v3000_v2000). Star-atom tables are outside the file-level theorems (C07Star covers their reading)"),
     "C07": dict(level="proof", theorems=["Contracts.Reader.graph_from_molfile_text_render_ok", "Contracts.Reader.fileMeaning_plain_graph", "Contracts.V3000._parse_atom_attributes_ok", "Contracts.V30Line.splice_phys", "Contracts.Bonds.graph_from_molfile_text_render_ok_bonds", "Contracts.C07Star.graph_from_molfile_text_render_star", "Contracts.C07Star.graph_from_molfile_text_render_star_bonds", "Contracts.C07Star.graph_from_molfile_text_render_star_reject", "Contracts.C07Star.keyword_order_text", "Contracts.C07Star.atom_line_keyword_order", "Contracts.C07Star.hydrogen_isotope_mass", "Contracts.C07Star.wf_of_format"],
-                note="renderer with arbitrary blank runs, cut points, header lines, separators; float() opaque (V5); tokens must not contain Unicode blanks outside the model's isPySpace"),
+                note="V3000 renderer with arbitrary blank runs, cut points, header lines, separators, index values, keyword order (each of CHG/RAD/MASS at most once, shown necessary), foreign keywords; atoms, attributes and bond types on the returned graph; star atoms with ENDPTS expanded at text level (C07Star). float() opaque (V5). Known finding D11: a quoted string value containing a word like CHG=5 is misread (tokenizer not quote-aware)"),
     "C08": dict(level="proof", theorems=["Contracts.Final.C08_agree", "Contracts.Reader.graph_from_molfile_text_v2000", "Contracts.V2000._parse_attribute_block_ok", "Contracts.V2000.specGet_mass_kept", "Contracts.V2000File.read_v2000_render", "Contracts.V2000File.read_v3000_render", "Contracts.V2000File.read_v2000_eq_v3000", "Contracts.V2000File.read_v2000_eq_v3000_lists", "Contracts.Bonds.graph_from_molfile_text_v2000_bonds", "Contracts.FileIso.C01_C06_v3000_v2000"],
-                note="a V2000 text and a V3000 rendering with the same identity data are both read and get the same TUCAN string; charges/bond types are characterised by the V2000 contracts (specGet)"),
+                note="an abstract molecule (<= 999 atoms) rendered as V2000 with any choice of charge code vs M CHG/M RAD lines (supersession rule), grouping of 1-8 entries per line, unrelated property lines, atom lists, D/T with or without M ISO is read as exactly that molecule: element, charge, radical, mass, adjacency, bond types (V2000File.read_v2000_render); its V3000 rendering is read with the same values and both get the same TUCAN string (read_v2000_eq_v3000). Coordinates are not compared across the two formats (float() opaque)"),
     "C09": dict(level="proof", theorems=["Contracts.Writer.C09", "Contracts.Final.C09_tucan", "Contracts.Final.C09_string", "Contracts.Writer.C09_line_length", "Contracts.Writer.C09_splice", "Contracts.Writer.C09_atom_roundtrip", "Contracts.WriterExt.C09_coords", "Contracts.WriterExt.C09_tucan'", "Contracts.WriterExt.C09_string'", "Contracts.WriterExt.written_wellformed", "Contracts.WriterExt.written_wellformed_parsed", "Contracts.Bonds.C09_tucan_bonds", "Contracts.Bonds.C09_string_bonds"],
-                note="coordinates: reading back gives parseFloat(fmt6 x); 'to six decimals' rests on the float law V5 (probed); radicals 1..3 as in the property's quantifier (the writer drops RAD > 3)"),
+                note="written file satisfies a format-level well-formedness predicate written from the CTfile rules (WriterExt.written_wellformed) incl. <= 80 characters per line; reading back gives the same atoms in order with element, charge, radical, mass, bond types on the graph (Bonds.C09_tucan_bonds) and coordinates equal to six decimals (WriterExt.C09_coords) under FloatLawful = float law V5 as a Lean hypothesis (satisfiable; probed on CPython); string round trip with hypotheses on the string only (C09_string'). Radicals 1..3 and labels >= 0 as in the quantifier"),
     "C10": dict(level="other", theorems=["Contracts.Parser.graph_from_tree_ok", "Contracts.Parser.graph_from_tree_error_is_TPE", "Contracts.Parser.int_total"],
                 note="semantic half proved; the recogniser half (ANTLR accepts exactly tucan.g4) cannot be proved here and is bounded (assumption V4)"),
     "C11": dict(level="proof", theorems=["Contracts.Final.C11_norm", "Contracts.Final.C11_norm_text", "Contracts.Final.C11_idem_text", "Contracts.RoundTrip.C11_main", "Contracts.C11Ext.C11_renumber", "Contracts.C11Ext.C11_renumber_text", "Contracts.C11Ext.C11_norm_ok", "Contracts.C11Ext.C11_norm_text_ok", "Contracts.C11Ext.C11_domain"],
-                note="respellings as relation Respell on syntax trees (same formula, same bond set, permuted attribute settings; renumbering inside an element block is covered by C01); string level under assumption V4"),
+                note="any finite chain of respellings (reorder/swap/repeat tuples, reorder/split attribute blocks, renumbering inside an element block: C11Ext.Spelling) normalises to one common string with .ok conclusions; idempotence; exact domain (C11_domain): norm returns iff the formula has an atom - the accepted sentences '/' and '//' raise ValueError, known finding D10. String level under assumption V4"),
     "C12": dict(level="proof", theorems=["Contracts.Canonicalize.C12_main", "Contracts.FinalLabels.serialize_molecule_frame_eq", "Contracts.FinalLabels.serialize_molecule_repeat"],
                 note="'argument unchanged' is the frame obligation of canonicalize_molecule (no mutated parameter) — back end: extractor"),
     "C13": dict(level="proof", theorems=["Contracts.Canonicalize.C13_main", "Contracts.Canonicalize.C13_classes", "Contracts.Canonicalize.C13_automorphism", "Contracts.Partition.refine_equitable", "Contracts.C11Ext.C13_attrs", "Contracts.C11Ext.C13_main_attrs"],
-                note="under BlissLawful (only for carrying the classes through the final renaming) and SetLawful"),
+                note="under BlissLawful (only for carrying the classes through the final renaming) and SetLawful; clause (b) also in the property's words: same class implies same element, mass, radical (C11Ext.C13_attrs)"),
     "C14": dict(level="other", theorems=["Contracts.Pipeline.C01_tucan", "Contracts.FinalLabels.assign_final_labels_order_independent", "Contracts.Partition.partition_eq"],
                 note="decided: (hash seed) the pipeline result is the same for any two set iteration orders (C01_tucan with g = h; the extractor shows sets are iterated only in canonicalization/serialization), (history) every function under contract is a pure function of its arguments with the recorded frame: no global writes, external state only random/clock/igraph/float as recorded, fresh listener per parse (glue fingerprint). NOT decided: thread schedules and state inside igraph, networkx and the antlr4 runtime (shared DFA cache) — bounded subprocess/thread probe only"),
     "C15": dict(level="proof", theorems=["Contracts.Pipeline.C15_pipeline_total", "Contracts.Partition.refine_ok", "Contracts.FinalLabels.assign_final_labels_total", "Contracts.Parser.graph_from_tree_error_is_TPE"],
                 note="total correctness with explicit fuel; call graph of the extracted functions is acyclic (constant call depth); ANTLR/igraph/networkx internals are assumptions"),
     "C16": dict(level="proof", theorems=["Contracts.Relabel.permute_molecule_spec", "Contracts.Relabel.permute_molecule_rng_irrelevant"],
-                note="partial correctness: termination of the retry loop is probabilistic and assumed; random.shuffle contract V6"),
+                note="partial correctness: the retry loop terminates with probability 1 only, so the theorem assumes the call returned (Witness.permute_runs shows it can); 'same result for the same seed' is the random.shuffle contract V6 (a function of seed and draw number; probed), 'argument unchanged' is the frame obligation"),
 }
 
 # vacuity guards: for every property-level theorem a concrete instance satisfying all its hypotheses is machine-checked in
